@@ -141,7 +141,7 @@ pub fn prog(c: &mut Cur, depth: u32) -> Prog {
     0 => Prog::New,
     1 => Prog::From(c.below(n)),
     2 => {
-      let m = c.below(5);
+      let m = if c.below(8) == 0 { 9 + c.below(16) } else { c.below(5) };
       Prog::FromIter((0..m).map(|_| c.below(n)).collect())
     }
     3 | 4 => Prog::Add(Box::new(prog(c, depth - 1)), c.below(n)),
